@@ -16,6 +16,23 @@ Inductive hint :=
 | HGood (expired : bool) (sub azp : string)
 | HBad.
 
+(* what the driver knows about a presented hint: not a verifiable token at all (wrong key,
+   tampered, garbage), or a token really signed by this provider's key for issuer [iss].
+   The verifier is built per request from the issuer of the CURRENT request
+   (Provider.IDTokenHintVerifier(ctx) -> IssuerFromContext): a token of another issuer -
+   including another host of the same provider - is rejected by CheckIssuer. *)
+Inductive tok :=
+| TNone
+| TSigned (iss : string) (expired : bool) (sub azp : string)
+| TBad.
+
+Definition classify (current_issuer : string) (t : tok) : hint :=
+  match t with
+  | TNone => HNone
+  | TBad => HBad
+  | TSigned iss ex sub azp => if String.eqb iss current_issuer then HGood ex sub azp else HBad
+  end.
+
 Inductive pres := PMatch | PNoMatch | PBad.      (* path.Match *)
 
 Record lclient := { l_id : string; l_post : list string; l_globs : option (list string) }.
